@@ -56,6 +56,11 @@ func (s Segment) Stat(params index.Params) (Stats, error) {
 	}
 
 	indexSize, indexMessages, err := index.Stat(s.Index, s.Offset, params)
+	if errors.Is(err, os.ErrNotExist) {
+		// the index is missing (it is rebuilt on demand), count the messages in the log
+		indexSize = 0
+		indexMessages, err = s.countMessages()
+	}
 	if err != nil {
 		return Stats{}, fmt.Errorf("stat index: %w", err)
 	}
@@ -65,6 +70,28 @@ func (s Segment) Stat(params index.Params) (Stats, error) {
 		Messages: indexMessages,
 		Size:     dataStat.Size() + indexSize,
 	}, nil
+}
+
+func (s Segment) countMessages() (int, error) {
+	log, err := message.OpenReader(s.Log, s.Offset)
+	if err != nil {
+		return -1, err
+	}
+	defer func() { _ = log.Close() }()
+
+	var count = 0
+	var position = log.InitialPosition()
+	for {
+		_, nextPosition, err := log.Read(position)
+		if errors.Is(err, io.EOF) {
+			return count, nil
+		} else if err != nil {
+			return -1, err
+		}
+
+		count++
+		position = nextPosition
+	}
 }
 
 func (s Segment) Check(params index.Params) error {
@@ -267,7 +294,13 @@ func (s Segment) Backup(targetDir string) error {
 		return fmt.Errorf("backup index rel: %w", err)
 	}
 	targetIndex := filepath.Join(targetDir, indexName)
-	if err := copyFile(s.Index, targetIndex); err != nil {
+	switch err := copyFile(s.Index, targetIndex); {
+	case errors.Is(err, os.ErrNotExist):
+		// the index is missing (it is rebuilt on demand), make sure the backup has none either
+		if err := os.Remove(targetIndex); err != nil && !errors.Is(err, os.ErrNotExist) {
+			return fmt.Errorf("backup index remove: %w", err)
+		}
+	case err != nil:
 		return fmt.Errorf("backup index copy: %w", err)
 	}
 
